@@ -1,7 +1,7 @@
 /-
 Hand model of ppci's C integer constant-expression pipeline (import-free), as it
-is after the `fix:` commits 4536e8c (eval.py, context.py) and 21f7d05
-(semantics.py) recorded in findings/C27.json:
+is after the `fix:` commits 4536e8c (eval.py, context.py), 21f7d05 (semantics.py),
+64ab988 (scope.py) and 4036049 (semantics.py) recorded in findings/C27.json:
 
 * `CSemantics.on_number/on_char/on_unop/on_binop/on_ternop/on_cast/coerce/promote/
   get_common_type` (ppci/lang/c/semantics.py)  ↦ `elaborate`  (source tree ↦ typed tree)
@@ -103,7 +103,7 @@ def fmtInfo : String → Option (Nat × Bool)
 /-- `CContext.wrap_integer(value, bit_size, signed)` -/
 def wrapInteger (value : Int) (bitSize : Nat) (signed : Bool) : Int :=
   let value := value % 2 ^ bitSize                         -- value &= (1 << bit_size) - 1
-  if signed && decide (value / 2 ^ (bitSize - 1) ≠ 0)     -- signed and value >> (bit_size - 1)
+  if signed = true ∧ value / 2 ^ (bitSize - 1) ≠ 0        -- signed and value >> (bit_size - 1)
   then value - 2 ^ bitSize else value
 
 /-- `CContext.to_integer_type(typ, value)` (typ is an integer type) -/
@@ -414,9 +414,12 @@ def enumerator (s : Src) : Except Err Int := do
   let t ← elaborate s
   eval t
 
-/-- `T a[e];`: `eval_expr(e)` -/
+/-- `CSemantics.size_t_type` on x86_64 (`long`, because `sizeof(int) != sizeof(int*)`) -/
+def sizeT : Ty := .long
+
+/-- `T a[e];`: `apply_type_modifiers` coerces the dimension to `size_t_type`; `eval_expr(typ.size)` -/
 def arraySize (s : Src) : Except Err Int := do
   let t ← elaborate s
-  eval t
+  eval (coerce t sizeT)
 
 end Model.CEval
